@@ -9813,7 +9813,8 @@ class Parser:
                 dot_or_id = column.to_dot() if column.table else column.this
 
                 if typ:
-                    dot_or_id = self.expression(exp.Cast(this=dot_or_id, to=typ))
+                    # The parameter's type is shared by all of its occurrences: each Cast gets its own copy
+                    dot_or_id = self.expression(exp.Cast(this=dot_or_id, to=typ.copy()))
 
                 parent = column.parent
 
